@@ -1502,6 +1502,7 @@ impl Family for C13Family {
             ack_mode: r.below(3) as u8,
             peer_yields: r.below(4),
             bufreader: if r.chance(1, 3) { Some(*r.pick(&[1usize, 7, 64, 8192])) } else { None },
+            late_end: if r.chance(1, 3) { 1 + r.below(2) as u8 } else { 0 },
         };
         (serde_json::to_value(plan).expect("plan"), seed)
     }
@@ -1510,7 +1511,7 @@ impl Family for C13Family {
         run_c13(&plan, sched, record)
     }
     fn rule(&self) -> &'static str {
-        "a real endpoint accepts a stream from the raw peer and bridges it (into_copy_bidirectional_with_buf, directly or through a BufReader of capacity 1/7/64/8192) with a scripted local byte stream: read side = chunks of 1..8 KiB, Pending->wake, Pending forever, EOF or error; write side = partial acceptance, Pending->wake, error; flush and shutdown = Ok / Pending->wake / error. The peer pushes 0-9 frames (credit permitting), then Finish, Reset or nothing, and acknowledges every frame, never, or in late batches (credit starvation). Oracle: relayed bytes are exact prefixes both ways, Push count <= credit granted, EOF -> exactly one Finish / peer Finish -> local shutdown while the other direction keeps flowing, Ok((r,w)) with true counts once both ended, any returned local error or mux-side BrokenPipe completes the bridge by quiescence. Non-trivial: bytes flowed in both directions."
+        "(a third of the runs end with a late event once everything is quiet: the peer resets the flow or the connection is lost, so that a bridge sitting on unsent data for lack of credit has a failed write) a real endpoint accepts a stream from the raw peer and bridges it (into_copy_bidirectional_with_buf, directly or through a BufReader of capacity 1/7/64/8192) with a scripted local byte stream: read side = chunks of 1..8 KiB, Pending->wake, Pending forever, EOF or error; write side = partial acceptance, Pending->wake, error; flush and shutdown = Ok / Pending->wake / error. The peer pushes 0-9 frames (credit permitting), then Finish, Reset or nothing, and acknowledges every frame, never, or in late batches (credit starvation). Oracle: relayed bytes are exact prefixes both ways, Push count <= credit granted, EOF -> exactly one Finish / peer Finish -> local shutdown while the other direction keeps flowing, Ok((r,w)) with true counts once both ended, any returned local error or mux-side BrokenPipe completes the bridge by quiescence. Non-trivial: bytes flowed in both directions."
     }
 }
 pub fn c13() -> Check {
@@ -1520,7 +1521,7 @@ pub fn c13() -> Check {
         engine: "muxsim",
         level: "fault_enumeration",
         families: vec![Box::new(C13Family)],
-        required_probes: vec!["bridge-ok", "bridge-err", "bridge-legitimately-pending", "bridge-coalesced-chunks", "bridge-credit-starved", "fault:local-read-error", "fault:local-write-error", "fault:local-flush-error", "fault:local-shutdown-error", "fault:peer-reset"],
+        required_probes: vec!["bridge-ok", "bridge-err", "bridge-legitimately-pending", "bridge-coalesced-chunks", "bridge-credit-starved", "flow-closed-under-starved-writer", "fault:local-read-error", "fault:local-write-error", "fault:local-flush-error", "fault:local-shutdown-error", "fault:peer-reset"],
         assumptions: vec!["a local writer never returns Ok(0) for a non-empty buffer (outside the AsyncWrite contract)", "no particular framing / coalescing or flush discipline is demanded beyond `a flush error ends the bridge`", "a bridge still pending because the peer has not ended its direction (or the local side pends forever) is correct"],
         real: vec!["penguin_mux::stream_tools::CopyBidirectional", "penguin_mux::MuxStream", "penguin_mux connection task", "frame codec (incl. append_push_data)", "tokio::io::BufReader (in a third of the runs)"],
         stub: vec!["local byte stream (ScriptIo)", "the peer (raw, reference codec)", "WebSocket transport", "scheduler"],
